@@ -788,6 +788,19 @@ def extract_diff_is_empty(repo):
     return ' | '.join(texts)
 
 
+def extract_app_sig_is_empty(repo):
+    """AppSignature.is_empty: a single `return not bool(self._model_sigs)` (or `not self._model_sigs`) -> 'models';
+    anything else -> the source text of what it returns"""
+    tree = ast.parse(_src(repo, 'django_evolution/signature.py'))
+    cls = _find_class(tree, 'AppSignature')
+    fn = _find_func(cls, 'is_empty')
+    body = [n for n in fn.body if not (isinstance(n, ast.Expr) and isinstance(getattr(n, 'value', None), ast.Constant))]
+    if len(body) == 1 and isinstance(body[0], ast.Return) and body[0].value is not None and \
+            ast.unparse(body[0].value) in ('not bool(self._model_sigs)', 'not self._model_sigs'):
+        return 'models'
+    return ' ; '.join(ast.unparse(n) for n in body)
+
+
 def extract_deleted_apps_lookup(repo):
     """ProjectSignature.diff finds the counterpart of a stored app with get_app_sig (id first, then legacy label):
     'get_app_sig'; a plain dictionary lookup by id -> 'by_id'; else 'unknown'"""
@@ -927,6 +940,10 @@ def regenerate(repo, outdir):
     parts.append('')
     parts.append('/-- Diff.is_empty(ignore_apps=False) = not deleted AND not changed ("and"), or what the source says instead -/')
     parts.append('def diffIsEmpty : String := ' + lean_str(die))
+    aie = extract_app_sig_is_empty(repo)
+    flags['app_sig_is_empty'] = aie
+    parts.append('/-- what AppSignature.is_empty() looks at: "models" (no model entries left), or what the source says instead -/')
+    parts.append('def appSigIsEmpty : String := ' + lean_str(aie))
     dal = extract_deleted_apps_lookup(repo)
     flags['deleted_apps_lookup'] = dal
     parts.append('/-- how ProjectSignature.diff finds the current counterpart of a stored app -/')
